@@ -1354,6 +1354,81 @@ let rec nodupb = function
 | [] -> true
 | x :: xs -> (&&) (negb (list_existsb_eq x xs)) (nodupb xs)
 
+(** val str_take : nat -> char list -> char list **)
+
+let rec str_take n0 s =
+  match n0 with
+  | O -> []
+  | S n' -> (match s with
+             | [] -> []
+             | c::r -> c::(str_take n' r))
+
+(** val str_drop : nat -> char list -> char list **)
+
+let rec str_drop n0 s =
+  match n0 with
+  | O -> s
+  | S n' -> (match s with
+             | [] -> []
+             | _::r -> str_drop n' r)
+
+(** val str_zeros : nat -> char list **)
+
+let rec str_zeros = function
+| O -> []
+| S n' -> '0'::(str_zeros n')
+
+(** val py_positional : char list -> char list option **)
+
+let py_positional r =
+  let neg = starts_with_char '-' r in
+  let body = if neg then str_drop (S O) r else r in
+  if str_forallb (fun c ->
+       (||)
+         ((||) ((||) ((||) (is_digit c) ((=) c '.')) ((=) c 'e')) ((=) c '+'))
+         ((=) c '-')) body
+  then (match str_split 'e' body with
+        | [] -> None
+        | m :: l ->
+          (match l with
+           | [] -> Some r
+           | ex :: l0 ->
+             (match l0 with
+              | [] ->
+                (match string_to_z (str_remove_char '+' ex) with
+                 | Some e ->
+                   let parts = str_split '.' m in
+                   let ip = match parts with
+                            | [] -> []
+                            | x :: _ -> x in
+                   let fp =
+                     match parts with
+                     | [] -> []
+                     | _ :: l1 -> (match l1 with
+                                   | [] -> []
+                                   | y :: _ -> y)
+                   in
+                   let digits = append ip fp in
+                   let pos = Z.add (Z.of_nat (length0 ip)) e in
+                   let len = Z.of_nat (length0 digits) in
+                   let text =
+                     if Z.leb len pos
+                     then append digits
+                            (append (str_zeros (Z.to_nat (Z.sub pos len)))
+                              ('.'::('0'::[])))
+                     else if Z.ltb Z0 pos
+                          then append (str_take (Z.to_nat pos) digits)
+                                 (append ('.'::[])
+                                   (str_drop (Z.to_nat pos) digits))
+                          else append ('0'::('.'::[]))
+                                 (append (str_zeros (Z.to_nat (Z.opp pos)))
+                                   digits)
+                   in
+                   Some (if neg then '-'::text else text)
+                 | None -> None)
+              | _ :: _ -> None)))
+  else None
+
 type sexp =
 | SAtom of char list
 | SStr of char list
@@ -3969,7 +4044,7 @@ let data_of_json = function
 | VInt z0 -> Ok (DInt z0)
 | VFloat r -> Ok (DFloat r)
 | VStr s -> Ok (DStr s)
-| _ -> Err OtherExn
+| _ -> Err ParsingException
 
 (** val reduce_op : astop -> node list -> node result **)
 
@@ -3995,10 +4070,10 @@ let rec json_parse_ctc fuel info0 =
        (match jget ('o'::('p'::('e'::('r'::('a'::('n'::('d'::('s'::[]))))))))
                 info0 with
         | Ok ov ->
-          (match jstr tv with
-           | Ok ty ->
-             (match jlist ov with
-              | Ok ops ->
+          (match jlist ov with
+           | Ok ops ->
+             (match jstr tv with
+              | Ok ty ->
                 let sub0 = fun i ->
                   match nth_operand ops i with
                   | Ok x -> json_parse_ctc fuel' x
@@ -4055,8 +4130,8 @@ let rec json_parse_ctc fuel info0 =
                                                               | Err e -> Err e)
                                                         else Err
                                                                ParsingException
-              | Err e -> Err e)
-           | Err e -> Err e)
+              | Err _ -> Err ParsingException)
+           | Err _ -> Err ParsingException)
         | Err e -> Err e)
      | Err e -> Err e)
 
@@ -4437,8 +4512,8 @@ let rec glencoe_parse_tree fuel finfo_ here parent node0 =
                                  | Err e -> Err e)
                               | Err e -> Err e)
                         else Ok (PFeature (info0, parent, [], []))
-                 | Err e -> Err e)
-              | Err e -> Err e)
+                 | Err _ -> Err FlamaException)
+              | Err _ -> Err FlamaException)
            | Err e -> Err e)
         | Err e -> Err e)
      | Err e -> Err e)
@@ -4485,7 +4560,7 @@ let rec glencoe_parse_ctc fuel finfo_ info0 =
                          | Ok nv ->
                            (match jstr nv with
                             | Ok nm -> Ok (term nm)
-                            | Err e -> Err e)
+                            | Err _ -> Err FlamaException)
                          | Err e -> Err e)
                       | Err e -> Err e)
                 else if eqb0 ty
@@ -4916,7 +4991,7 @@ let rec fide_parse_rule = function
   if eqb0 tag fide_TAG_VAR
   then (match text with
         | Some t -> Ok (term t)
-        | None -> Err OtherExn)
+        | None -> Err FlamaException)
   else if eqb0 tag fide_TAG_NOT
        then (match sub0 O with
              | Ok a -> Ok (un NOT a)
@@ -7423,7 +7498,10 @@ let rec afm_relspecs = function
 
 let afm_value = function
 | VInt z0 -> Ok (AvInt (z_to_string z0))
-| VFloat r -> Ok (AvDouble (r, r))
+| VFloat r ->
+  (match py_positional r with
+   | Some t -> Ok (AvDouble (t, r))
+   | None -> Err FlamaException)
 | VStr s -> Ok (AvText s)
 | _ -> Err OtherExn
 
@@ -7724,8 +7802,15 @@ let afm_value_aval = function
 (** val afm_read_expr : char list -> aexpr -> node result **)
 
 let rec afm_read_expr prefix = function
-| EVar t -> Ok (term (append prefix t))
-| ENum t -> Ok (term t)
+| EVar t ->
+  Ok
+    (term
+      (if match t with
+          | [] -> false
+          | c::_ -> is_lower c
+       then append prefix t
+       else t))
+| ENum _ -> Err FlamaException
 | EBin (op, a, b) ->
   (match afm_operator_of_keyword op with
    | Some o ->
@@ -8314,7 +8399,9 @@ let clafer_value v = match v with
   then 't'::('r'::('u'::('e'::[])))
   else 'f'::('a'::('l'::('s'::('e'::[]))))
 | VInt z0 -> z_to_string z0
-| VFloat r -> r
+| VFloat r -> (match py_positional r with
+               | Some t -> t
+               | None -> r)
 | VStr s -> quote s
 | _ -> py_str v
 
@@ -8327,12 +8414,24 @@ let clafer_type = function
 | VStr _ -> 's'::('t'::('r'::('i'::('n'::('g'::[])))))
 | _ -> []
 
+(** val in_any_number_group : feature option -> feature -> bool **)
+
+let in_any_number_group p f =
+  match p with
+  | Some q ->
+    existsb (fun r ->
+      (&&)
+        ((&&) ((&&) (rel_is_cardinal r) (Z.eqb (r_min r) Z0))
+          (Z.eqb (r_max r) (Zneg XH))) (in_children f r)) (rels q)
+  | None -> false
+
 (** val clafer_tree : feature option -> feature -> clf **)
 
 let rec clafer_tree p f = match f with
 | Feature (i, rs) ->
   Clf ((clafer_group f), (cl_safename i.f_name),
-    (negb (Nat.eqb (length i.f_attrs) O)), (feat_is_optional p f),
+    (negb (Nat.eqb (length i.f_attrs) O)),
+    ((||) (feat_is_optional p f) (in_any_number_group p f)),
     (map (fun a -> ((cl_safename a.a_name), (clafer_value a.a_default)))
       i.f_attrs),
     (flat_map (fun r ->
@@ -8398,15 +8497,27 @@ let clafer_attrdecls m =
      | VStr s -> s
      | _ -> []))) d
 
+(** val nonfinite_float : aval -> bool **)
+
+let nonfinite_float = function
+| VFloat r -> (match py_positional r with
+               | Some _ -> false
+               | None -> true)
+| _ -> false
+
 (** val clafer_write : fm -> cdoc result **)
 
 let clafer_write m =
-  match mapM (fun c -> clafer_node c.c_ast) m.ctcs with
-  | Ok cs ->
-    Ok { cd_attrdecls = (clafer_attrdecls m); cd_root =
-      (clafer_tree None m.root); cd_ctcs = cs; cd_instance_of =
-      (cl_safename (name m.root)) }
-  | Err e -> Err e
+  if existsb (fun f ->
+       existsb (fun a -> nonfinite_float a.a_default) (info f).f_attrs)
+       (get_features m)
+  then Err FlamaException
+  else (match mapM (fun c -> clafer_node c.c_ast) m.ctcs with
+        | Ok cs ->
+          Ok { cd_attrdecls = (clafer_attrdecls m); cd_root =
+            (clafer_tree None m.root); cd_ctcs = cs; cd_instance_of =
+            (cl_safename (name m.root)) }
+        | Err e -> Err e)
 
 (** val cl_name : clf -> char list **)
 
@@ -8433,12 +8544,21 @@ let group_bounds g n0 =
   | GMux -> (Z0, (Zpos XH))
   | GCardC (a, b) -> (a, (if Z.eqb b (Zneg XH) then Z.of_nat n0 else b))
 
+(** val default_gcard : cgroup option -> bool **)
+
+let default_gcard = function
+| Some c ->
+  (match c with
+   | GCardC (a, b) -> (&&) (Z.eqb a Z0) (Z.eqb b (Zneg XH))
+   | _ -> false)
+| None -> true
+
 (** val cl_sem : (char list -> bool) -> clf -> bool **)
 
 let rec cl_sem _UU03c3_ = function
 | Clf (g, n0, _, _, _, kids) ->
   (&&) (_UU03c3_ n0)
-    (match g with
+    (match if default_gcard g then None else g with
      | Some gr ->
        let (a, b) = group_bounds gr (length kids) in
        let k = Z.of_nat (length (filter (fun d -> _UU03c3_ (cl_name d)) kids))
